@@ -377,7 +377,9 @@ class SReal(SNum):
 
     def __round__(self, n=None):
         if n is not None:
-            raise TypeError("round(symbolic, ndigits) is not modelled")
+            # round-half-even to n decimal digits (exact reals)
+            k = 10 ** int(n)
+            return SReal(self.g, z3.ToReal((self * k).__round__().e)) / k
         f = z3.ToInt(self.e)
         d = self.e - z3.ToReal(f)
         half = z3.RealVal("1/2")
